@@ -18,6 +18,7 @@ import (
 	"time"
 
 	"github.com/coregx/coregex/dfa/lazy"
+	"github.com/coregx/coregex/nfa"
 )
 
 type L2Step struct {
@@ -56,6 +57,11 @@ type L2Outcome struct {
 // showed it answering differently on a reused cache - a finding outside every claimed
 // property, recorded in DESIGN.md 9.2).
 var fwdCalls = []string{"Find", "FindAt", "SearchAt", "SearchAtAnchored", "IsMatch", "IsMatchAt"}
+// role "pvm": one nfa.PikeVM instance reused (meta keeps one per SearchState); role "bt":
+// one nfa.BacktrackerState reused by the engine's backtrackers (UTF-8 and ASCII automaton
+// share it in meta).
+var pvmCalls = []string{"Search", "IsMatch", "SearchAt", "SearchBetween", "CapturesAt", "CapturesInSpan", "SlotIsMatchAt", "SlotFindAt", "SlotCapturesAt", "SetLongest"}
+var btCalls = []string{"IsMatch", "IsMatchAnchored", "Search", "SearchAt"}
 var revCalls = []string{"SearchReverse", "SearchReverseLimited", "TryIsMatchReverse"}
 
 func isRevRole(role string) bool {
@@ -93,8 +99,9 @@ func genL2(seed uint64, index int, tier string) *L2Scenario {
 		roles = append(roles, k)
 	}
 	sort.Strings(roles)
-	if len(roles) == 0 {
-		return sc
+	roles = append(roles, "pvm")
+	for i := range re.VerifEngine().VerifBacktrackers() {
+		roles = append(roles, fmt.Sprintf("bt%d", i))
 	}
 	sre := parsePattern(sc.Pattern)
 	genASCII = r.fork(9).p(1, 3)
@@ -115,7 +122,20 @@ func genL2(seed uint64, index int, tier string) *L2Scenario {
 		h := or.n(nh)
 		l := len(sc.Hays[h]) / 2
 		st := L2Step{Role: role, H: h}
-		if isRevRole(role) {
+		if role == "pvm" || role[:2] == "bt" {
+			if role == "pvm" {
+				st.Call = pick(or, pvmCalls)
+			} else {
+				st.Call = pick(or, btCalls)
+			}
+			if l > 0 && or.p(1, 2) {
+				st.At = or.n(l + 1)
+			}
+			st.End = l
+			if l > st.At && or.p(1, 2) {
+				st.End = or.between(st.At, l)
+			}
+		} else if isRevRole(role) {
 			st.Call = pick(or, revCalls)
 			st.End = l
 			if l > 0 && or.p(1, 2) {
@@ -188,6 +208,81 @@ func l2Call(d *lazy.DFA, c *lazy.DFACache, st *L2Step, h []byte) (res string) {
 	return "unknown call " + st.Call
 }
 
+func renderNC(m *nfa.MatchWithCaptures) string {
+	if m == nil {
+		return "nil"
+	}
+	return fmt.Sprint(m.Start, m.End, m.Captures)
+}
+
+// pvmCall runs one call on a PikeVM instance. SetLongest is handled by the caller.
+func pvmCall(p *nfa.PikeVM, st *L2Step, h []byte) (res string) {
+	defer func() {
+		if r := recover(); r != nil {
+			res = fmt.Sprintf("PANIC: %v", r)
+		}
+	}()
+	at := clampAt(st.At, len(h))
+	end := clampAt(st.End, len(h))
+	if end < at {
+		end = at
+	}
+	switch st.Call {
+	case "Search":
+		return fmt.Sprint(p.Search(h))
+	case "IsMatch":
+		return fmt.Sprint(p.IsMatch(h))
+	case "SearchAt":
+		return fmt.Sprint(p.SearchAt(h, at))
+	case "SearchBetween":
+		return fmt.Sprint(p.SearchBetween(h, at, end))
+	case "CapturesAt":
+		return renderNC(p.SearchWithCapturesAt(h, at))
+	case "CapturesInSpan":
+		// only defined when a match is known to exist in the span: ask first, like meta does
+		if _, _, ok := p.SearchAt(h[:end], at); !ok {
+			return "no-match-in-span"
+		}
+		return renderNC(p.SearchWithCapturesInSpan(h, at, end))
+	case "SlotIsMatchAt":
+		return fmt.Sprint(p.SearchWithSlotTableAt(h, at, nfa.SearchModeIsMatch))
+	case "SlotFindAt":
+		return fmt.Sprint(p.SearchWithSlotTableAt(h, at, nfa.SearchModeFind))
+	case "SlotCapturesAt":
+		return renderNC(p.SearchWithSlotTableCapturesAt(h, at))
+	}
+	return "unknown call " + st.Call
+}
+
+func isASCIIBytes(h []byte) bool {
+	for _, c := range h {
+		if c >= 0x80 {
+			return false
+		}
+	}
+	return true
+}
+
+func btCall(b *nfa.BoundedBacktracker, state *nfa.BacktrackerState, st *L2Step, h []byte) (res string) {
+	defer func() {
+		if r := recover(); r != nil {
+			res = fmt.Sprintf("PANIC: %v", r)
+		}
+	}()
+	at := clampAt(st.At, len(h))
+	switch st.Call {
+	case "IsMatch":
+		return fmt.Sprint(b.IsMatchWithState(h, state))
+	case "IsMatchAnchored":
+		return fmt.Sprint(b.IsMatchAnchoredWithState(h, state))
+	case "Search":
+		return fmt.Sprint(b.SearchWithState(h, state))
+	case "SearchAt":
+		return fmt.Sprint(b.SearchAtWithState(h, at, state))
+	}
+	return "unknown call " + st.Call
+}
+
 func runL2(sc *L2Scenario) *L2Outcome {
 	out := &L2Outcome{}
 	re, err := compile(sc.Pattern, sc.Knobs)
@@ -226,10 +321,68 @@ func runL2(sc *L2Scenario) *L2Outcome {
 		out.Roles = append(out.Roles, k)
 	}
 	sort.Strings(out.Roles)
+	// NFA-level roles
+	var agedPVM *nfa.PikeVM
+	var nfaObj *nfa.NFA
+	pvmLongest := false
+	if n, err := nfa.NewDefaultCompiler().Compile(sc.Pattern); err == nil {
+		nfaObj = n
+		agedPVM = nfa.NewPikeVM(n)
+	}
+	bts := re.VerifEngine().VerifBacktrackers()
+	agedBT := nfa.NewBacktrackerState()
 	for si := range sc.Steps {
 		st := &sc.Steps[si]
+		if st.H >= len(hb) {
+			continue
+		}
+		if st.Role == "pvm" || (len(st.Role) > 2 && st.Role[:2] == "bt") {
+			h := hb[st.H]
+			var got, want, again string
+			if st.Role == "pvm" {
+				if agedPVM == nil {
+					continue
+				}
+				if st.Call == "SetLongest" {
+					pvmLongest = !pvmLongest
+					agedPVM.SetLongest(pvmLongest)
+					continue
+				}
+				got = pvmCall(agedPVM, st, h)
+				fresh := nfa.NewPikeVM(nfaObj)
+				fresh.SetLongest(pvmLongest)
+				want = pvmCall(fresh, st, h)
+				again = pvmCall(agedPVM, st, h)
+			} else {
+				var idx int
+				fmt.Sscanf(st.Role, "bt%d", &idx)
+				if idx >= len(bts) {
+					continue
+				}
+				b := bts[idx]
+				// meta's own guards: capacity, and the ASCII automaton only on 7-bit input
+				if !b.CanHandle(len(h)) || (idx == 1 && !isASCIIBytes(h)) {
+					continue
+				}
+				got = btCall(b, agedBT, st, h)
+				want = btCall(b, nfa.NewBacktrackerState(), st, h)
+				again = btCall(b, agedBT, st, h)
+			}
+			out.Checked++
+			if got != want {
+				out.Violations = append(out.Violations, HViolation{Step: si, Kind: "result",
+					What: fmt.Sprintf("%s %s(h%d len %d, at %d, end %d) on reused state differs from the same call on new state", st.Role, st.Call, st.H, len(h), st.At, st.End), Got: got, Want: want})
+			} else if again != got {
+				out.Violations = append(out.Violations, HViolation{Step: si, Kind: "repeat",
+					What: fmt.Sprintf("%s %s(h%d) repeated on the same state gives another answer", st.Role, st.Call, st.H), Got: again, Want: got})
+			}
+			if len(out.Violations) >= 3 {
+				break
+			}
+			continue
+		}
 		d := dfas[st.Role]
-		if d == nil || st.H >= len(hb) {
+		if d == nil {
 			continue
 		}
 		h := hb[st.H]
